@@ -50,6 +50,9 @@ func TestC05(t *testing.T) {
 		if i%3 == 2 { // some one-directional clients are missing
 			c.MissingClients = 1 + i%2
 		}
+		if i%3 == 1 { // long histories with most sends relayed: vouchers travel onward through the chain they came from
+			c.RelayProb, c.Steps = 0.6, 220
+		}
 	},
 		func() []world.Monitor { return []world.Monitor{&props.C05{R: rec}} })
 	setExit(rec.Finish())
